@@ -49,7 +49,7 @@ def chop_in_blocks_vector_multi(v, id_to_delete):
     Returns:
         tuple: tuple of ``(va,vb)`` vectors
     """
-    id_to_keep = np.sort(list(set(np.arange(len(v[0]))) - set(id_to_delete)))
+    id_to_keep = np.sort(list(set(np.arange(len(v[0]))) - set(id_to_delete))).astype(int)
     va = v[:, id_to_keep]
     vb = v[:, id_to_delete]
     return (va, vb)
@@ -70,9 +70,9 @@ def reassemble_multi(A, id_to_delete):
     Returns:
         array: array of new matrices, each filled with ``A`` and identity
     """
-    num_weights = len(A[:, 0, 0])
-    new_mat_dim = len(A[0]) + len(id_to_delete)
-    ind = np.sort(list(set(np.arange(new_mat_dim)) - set(id_to_delete)))
+    num_weights = A.shape[0]
+    new_mat_dim = A.shape[1] + len(id_to_delete)
+    ind = np.sort(list(set(np.arange(new_mat_dim)) - set(id_to_delete))).astype(int)
     new_mat = np.tile(np.eye(new_mat_dim, dtype=complex), (num_weights, 1, 1))
     new_mat[np.ix_(np.arange(new_mat.shape[0], dtype=int), ind, ind)] = A
     return new_mat
@@ -93,9 +93,9 @@ def reassemble_vector_multi(va, id_to_delete):
     Returns:
         array: array of new vectors, each filled with ``va`` and 0
     """
-    num_weights = len(va[:, 0])
-    new_vec_dim = len(va[0]) + len(id_to_delete)
-    ind = np.sort(list(set(np.arange(new_vec_dim)) - set(id_to_delete)))
+    num_weights = va.shape[0]
+    new_vec_dim = va.shape[1] + len(id_to_delete)
+    ind = np.sort(list(set(np.arange(new_vec_dim)) - set(id_to_delete))).astype(int)
     new_vec = np.zeros((num_weights, new_vec_dim), dtype=complex)
     new_vec[:, ind] = va
     return new_vec
